@@ -201,6 +201,8 @@ void run_case(Ctx& c) {
     History h{c.tape, dir, cfg};
     TP latest = h.run(&c);
     const long N = g_ops;
+    c.count("histories");
+    c.count("fs_operation_points", static_cast<std::uint64_t>(N));
     c.note("|points=%ld", N);
     // after the history: a final sweep past every deadline must leave an empty directory (same oracle as after a crash)
     auto final_check = [&](const char* sig, const std::string& what) {
@@ -242,6 +244,7 @@ void run_case(Ctx& c) {
             c.fail("C04:orphan-file-after-restart-or-crash", "crash at filesystem operation " + std::to_string(k) + " of " + std::to_string(N) +
                                                                     ": after a restart and a sweep past every deadline " + std::to_string(left.size()) + " chunk file(s) remain");
         c.nt("crash_point_enumerated");
+        c.count("crash_points_enumerated");
     }
     if (N > 0) c.note("crash_points=%ld", N);
 }
